@@ -105,6 +105,9 @@ func (vc *VC) ghostAt(fr *Frame, n *Node, where, callee string, ord int, res ...
 			continue
 		}
 		sc := vc.specCtx(fr, n, n.env)
+		if where == "before" || where == "after" {
+			sc.pos = fr.curPos
+		}
 		// actual arguments of the anchoring call, by the callee's parameter names: arg_<name>
 		for k, v := range fr.ghostArgs {
 			sc.names["arg_"+k] = v
@@ -405,6 +408,10 @@ func (p *Prog) buildVC(fn *ssa.Function, opts VerifyOpts) (*VC, *Node, int) {
 	for pass = 1; pass <= 8; pass++ {
 		vc = newVC(p, relKey(fn), loopMods)
 		vc.safetyOn, vc.safetyTags = opts.Safety, opts.SafetyTags
+		if fc := p.contracts[fn]; fc != nil && fc.Safety {
+			vc.safetyOn = true
+			vc.safetyTags = fc.SafetyTags
+		}
 		vc.lockOn, vc.lockTags = opts.Locks, opts.LockTags
 		vc.noAutoInline = opts.NoAutoInline
 		vc.smokeOn = opts.Smoke
